@@ -469,7 +469,22 @@ func c07CLI(c *Ctx) {
 				_ = lines
 				p := filepath.Join(dir, fmt.Sprintf("in_%d.log", c.Shard))
 				os.WriteFile(p, []byte(strings.Join(in, "\n")+"\n"), 0o644)
-				res, err := runCLI(CLIRun{Bin: c.CLI, Args: append([]string{"redact", p}, fa...), Dir: dir})
+				// position 0: file -> stdout; position 1: stdin -> --outputFile onto a longer file an earlier run left
+				// there; position 2: file -> --outputFile onto such a file ("at most one output line" counts stale ones)
+				run := CLIRun{Bin: c.CLI, Args: append([]string{"redact", p}, fa...), Dir: dir}
+				outPath := filepath.Join(dir, fmt.Sprintf("out_%d.log", c.Shard))
+				if pos >= 1 {
+					os.WriteFile(outPath, []byte(strings.Repeat("{\"stale\":\"line of an earlier run\"}\n", 3000)), 0o644)
+					run.Args = append(run.Args, "--outputFile", outPath)
+					if pos == 1 {
+						run.Args = append(append([]string{"redact"}, fa...), "--outputFile", outPath)
+						run.StdinMode, run.Stdin = "pipe", []byte(strings.Join(in, "\n")+"\n")
+					}
+				}
+				res, err := runCLI(run)
+				if pos >= 1 && err == nil {
+					res.Stdout, _ = os.ReadFile(outPath)
+				}
 				c.Eval(1)
 				c.Distinct(fmt.Sprintf("cli %s %d %d", b.name, pos, fi))
 				if err != nil {
